@@ -49,7 +49,24 @@ func ConvertOperatorToSQL(operator string) string {
 	case queries.OperatorLike:
 		return "like"
 	}
-	panic("unreachable")
+	// Not unreachable: a property's type may allow an operator that is not a comparison ($in on a string,
+	// $exists on a map) while its handler only builds comparisons. resolveFilter turns this into the error.
+	panic(NewErrInvalidQuery("operator '%s' is not supported for this property", operator))
+}
+
+// resolveFilter calls the handler's ResolveFilter and reports an operator refused by ConvertOperatorToSQL as
+// the invalid query it is.
+func resolveFilter[Opts any](handler RepositoryHandler[Opts], q ResourceQuery[Opts], operator, key string, value any) (where string, args []any, err error) {
+	defer func() {
+		if e := recover(); e != nil {
+			invalid, ok := e.(ErrInvalidQuery)
+			if !ok {
+				panic(e)
+			}
+			err = invalid
+		}
+	}()
+	return handler.ResolveFilter(q, operator, key, value)
 }
 
 type JoinCondition struct {
@@ -176,7 +193,7 @@ func (r *ResourceRepository[ResourceType, OptionsType]) buildFilteredDataset(q R
 	if q.Builder != nil {
 		// Convert filters to where clause
 		where, args, err := q.Builder.Build(query.ContextFn(func(key, operator string, value any) (string, []any, error) {
-			return r.resourceHandler.ResolveFilter(q, operator, key, value)
+			return resolveFilter(r.resourceHandler, q, operator, key, value)
 		}))
 		if err != nil {
 			return nil, err
